@@ -2,6 +2,7 @@ package stdlib
 
 import (
 	"fmt"
+	"math"
 	"regexp"
 	"sort"
 	"strings"
@@ -407,6 +408,14 @@ var IndentFunc = function.New(&function.Spec{
 			return cty.UnknownVal(cty.String), function.NewArgErrorf(0, "the number of spaces must not be negative")
 		}
 		data := args[1].AsString()
+		lines := strings.Count(data, "\n")
+		if lines == 0 {
+			// Only lines after the first are indented, so there's nothing to do.
+			return cty.StringVal(data), nil
+		}
+		if spaces > (math.MaxInt32-len(data))/lines {
+			return cty.UnknownVal(cty.String), function.NewArgErrorf(0, "the number of spaces is too large: the resulting string would be too long")
+		}
 		pad := strings.Repeat(" ", spaces)
 		return cty.StringVal(strings.Replace(data, "\n", "\n"+pad, -1)), nil
 	},
